@@ -3,6 +3,7 @@
 # Confirms the seeded change (demo passes on the clean tree, fails with the change; the repository's tests pass with the change) on a scratch
 # copy of /repo, then runs the registered quick checks against that copy (VERIF_REPO) and reports which of them raise a VIOLATION.
 set -u
+V=$(cd "$(dirname "$0")/.." && pwd)
 M=$(cd "$1" && pwd); shift
 PROP=$(python3 -c "import json,sys; print(json.load(open('$M/meta.json'))['property'])")
 PROPS=${@:-$PROP}
@@ -15,15 +16,15 @@ if ! patch -p1 --quiet < "$M/patch.diff"; then echo "RESULT $M patch-does-not-ap
 PYTHONPATH="$D" /venv/bin/python "$M/demo.py" > "$D/demo_mut.log" 2>&1; c1=$?
 T=$(PYTHONPATH="$D" /venv/bin/python -m pytest -q -p no:cacheprovider tests 2>&1 | tail -1)
 echo "CONFIRM demo_clean_exit=$c0 demo_mutant_exit=$c1 tests='$T'"
-cd /verif
+cd "$V"
 echo "{\"demo_clean_exit\": $c0, \"demo_mutant_exit\": $c1, \"tests_with_change\": \"$T\", \"checks\": {" > "$M/eval.json"
 first=1
 for p in $PROPS; do
   VERIF_REPO="$D" ./check $p --tier quick > "$D/check_$p.log" 2>&1; rc=$?
-  echo "CHECK $p rc=$rc $(grep -c '^VIOLATION' "$D/check_$p.log") violations: $(grep '^VIOLATION' "$D/check_$p.log" | sed 's/.*replay=\/verif\/replays\///' | cut -c1-110 | head -4 | tr '\n' ';')"
+  echo "CHECK $p rc=$rc $(grep -c '^VIOLATION' "$D/check_$p.log") violations: $(grep '^VIOLATION' "$D/check_$p.log" | sed "s/.*replays\///" | cut -c1-110 | head -4 | tr '\n' ';')"
   [ $first = 1 ] || echo "," >> "$M/eval.json"; first=0
-  V=$(grep '^VIOLATION' "$D/check_$p.log" | sed 's/.*replay=\/verif\/replays\///' | python3 -c "import sys,json; print(json.dumps([l.strip() for l in sys.stdin][:8]))")
-  echo "\"$p\": {\"exit\": $rc, \"violations\": $V}" >> "$M/eval.json"
+  VI=$(grep "^VIOLATION" "$D/check_$p.log" | sed "s/.*replays\///" | python3 -c "import sys,json; print(json.dumps([l.strip() for l in sys.stdin][:8]))")
+  echo "\"$p\": {\"exit\": $rc, \"violations\": $VI}" >> "$M/eval.json"
 done
 echo "}}" >> "$M/eval.json"
-git -C /verif checkout -q -- evidence 2>/dev/null
+git -C "$V" checkout -q -- evidence 2>/dev/null
